@@ -189,6 +189,7 @@ M("C06", "c06_validate_sig_gate", [BVX], "every path of the body returning true;
 M("C06", "c06_validate_root_gate", [BVX], "every path returning true; generate_merkle_root's result and self.merkle_root free 32-byte values")
 M("C06", "c06_merkle_commits_every_tx", ["saito_core::core::consensus::merkle::MerkleTree::generate (leaf construction)"], "blocks of 1..=3 transactions, txs_replacements any value 0..=3 per transaction (4^n patterns), hashes symbolic", covers=3)
 M("C06", "c06_merkle_root_recomputed", ["Block::generate_merkle_root"], "blocks carrying 1..=2 transactions, is_browser / is_spv symbolic", covers=1)
+M("C06", "c06_signed_header_covers_commitment", ["Block::serialize_for_signature"], "two arbitrary blocks, every value of every header field; the signing serialisation has constant length (209 bytes on this tree), compared byte for byte; decided per field (merkle_root, previous_block_hash, creator, id, timestamp); order of the fields is outside the claim", covers=1)
 M("C06", "c06_validate_txs_gate", [BVX], "every path returning true; the transaction sweep's verdict free")
 PROPERTY_ASSUMPTIONS["C08"] += ["gates: all paths of Block::validate with free callee results (same exploration and path selection as C06)"]
 M("C08", "c08_block_work_gate", [BVX, "BurnFee::return_routing_work_needed_to_produce_block_in_nolan (uninterpreted)"], "every path returning true with a known non-ghost parent; total_work and the requirement free u64")
@@ -196,6 +197,7 @@ M("C08", "c08_block_gt_gate", [BVX, "GoldenTicket::validate (uninterpreted)"], "
 M("C08", "c08_winning_router_eligible", ["Transaction::get_winning_routing_node"], "0..=3 hops (thorough 5), 0..=2 inputs, fee within the token supply, lottery remainder a symbolic input below the aggregate work", covers=1)
 M("C08", "c08_requirement_zero_after_two_heartbeats", ["BurnFee::return_routing_work_needed_to_produce_block_in_nolan"], "every parent burn fee, timestamps and heartbeat (u64); the integer gates (misordered timestamps, elapsed >= 2 x heartbeat => 0); the float curve below two heartbeats is an arbitrary value; native replay", covers=1)
 M("C08", "c08_routing_path_valid", ["Transaction::validate_routing_path"], "paths of 1..=2 hops (thorough 3), keys / signatures symbolic, one free verify verdict per question; message = tx signature || hop.to checked bytewise", covers=1)
+M("C08", "c08_block_counts_work_once", ["Block::generate"], "blocks of 1..=2 transactions (thorough 3), block.total_work before the call symbolic; Transaction::generate replaced by its contract (writes a fresh total_work_for_me <= 7e17); merkle root / hashing not entered", covers=2)
 PROPERTY_ASSUMPTIONS["C13"] = [
     "engine M gates only: the validator requires the block's rebroadcast commitment to equal the recomputed one, and the in-block double-spend scan treats ATR transactions like any other spender. Which outputs are selected for rebroadcast, their amounts, 'exactly once' and expiry over histories are outside the claim",
 ]
@@ -208,6 +210,7 @@ M("C01", "c01_tx_signature_gate", ["Transaction::validate"], "types Normal / Gol
 M("C01", "c01_stake_input_must_exist", ["Blockchain::is_slip_unlocked"], "every 59-byte key; decoded slip of any type / height; ledger answer (absent / present-unspendable / present-spendable) symbolic", covers=1)
 M("C02", "c02_generate_commits_every_atr", ["saito_core::core::consensus::block::Block::generate (second sweep)"], "same as c13_generate_commits_every_atr: the ATR type, exempt from the no-mint comparison, cannot bypass the commitment", covers=2)
 M("C02", "c02_block_double_spend", ["Block::validate (the per-transaction closure: double-spend scan)"], "same as c01_block_double_spend: 1..=3 inputs, one recorded key", covers=3)
+M("C02", "c02_upgrade_recomputes_ledger_keys", ["Block::upgrade_block_to_block_type", "Block::generate", "Transaction::generate", "Transaction::generate_total_fees"], "three steps: upgrade to Full with a disk block of 1..=2 transactions (1 in / 1 out); Block::generate over 1..=2 transactions; Transaction::generate over 1..=2 inputs x 1..=2 outputs of every slip type; disk read, hashing and Slip::generate_utxoset_key itself are stubs (the key layout is c09_utxokey_layout)", covers=1)
 M("C13", "c13_pruned_block_selection", ["Block::generate_consensus_values (async body, up to the point where the block leaving the window is loaded)"], "block id and genesis period symbolic; parent block not indexed (its arithmetic is independent and skipped)", covers=1)
 M("C13", "c13_nft_group_not_split", ["Block::generate_consensus_values (async body, rebroadcast section: collection pass and regrouping pass)"], "block loaded from disk a symbolic input: one transaction with outputs [Bound, payload of any non-Bound type, Bound], all unspent; amounts within the supply; parent not indexed (multiplier 1)", covers=1)
 M("C13", "c13_atr_inputs_checked_against_ledger", ["Transaction::validate_against_utxoset"], "transactions of every type except Fee with 1..=2 inputs; Slip::validate verdicts free", covers=1)
@@ -224,6 +227,7 @@ PROPERTY_ASSUMPTIONS["C04"] = [
 ]
 M("C04", "c04_index_cleanup", ["BlockRing::delete_block", "RingItem::delete_block"], "same as c03_m_blockring_delete: rejecting a block removes exactly its (id, hash) from the chain index, for any id", covers=2)
 M("C04", "c04_ringitem_delete", ["RingItem::delete_block"], "same as c03_m_ringitem_delete: slots of 1..=3 (4) pairwise different blocks (same id with another hash included)", covers=1)
+M("C04", "c04_failure_cleanup_spares_ledger", ["Blockchain::add_block_failure"], "the stored block is an arbitrary block; callees (Block::*, BlockRing::*, Mempool::*, add_block_transactions_back) are not entered: the claim is about what the clean-up hands them", covers=1)
 M("C04", "c04_rejected_block_writes_nothing", ["Blockchain::add_block (async body, up to the fork-choice comparison)"], "every path that returns before the fork-choice step (about 10 of 400); block id/hash/parent, tip, genesis period, stored/loading flags symbolic; writes = BlockRing::add_block/on_chain_reorganization/delete_block, blocks.insert/remove", covers=1)
 M("C04", "c04_wind_failure_request", ["Blockchain::wind_chain (async body, one step)"], "candidate chains of 2..=3 blocks (thorough 4), failing block at every index that is not the first one wound; the unwind request must list exactly the blocks already wound", covers=1)
 M("C04", "c04_machine", ["Blockchain::validate", "Blockchain::wind_chain", "Blockchain::unwind_chain"], "see assumptions; one class per (|new|, |old|, validity pattern forced by the path)", covers=4)
@@ -231,11 +235,12 @@ M("C04", "c04_machine", ["Blockchain::validate", "Blockchain::wind_chain", "Bloc
 # ============================================================================== C16
 PROPERTY_ASSUMPTIONS["C16"] = [
     "inductive step: one selection round (get_blocks_to_fetch_per_peer) from an arbitrary state of one peer's queue that satisfies the invariant #Fetching <= batch size; batch size 1..=3; the invariant is re-established (P1), so the bound holds along every history of rounds",
-    "the queue is given sorted by strictly increasing id, so the stable sort inside the round is modelled as the identity (equal ids with hash tie-break are outside the claim); other operations (announcements, mark_as_failed / fetched, remove_entry) and liveness over unbounded histories are outside this revision's claim",
+    "c16_select_step: the queue is given sorted by strictly increasing id, so the stable sort inside the round is modelled as the identity; c16_select_orders_unsorted_queue drops that assumption (arbitrary arrival order, pairwise distinct ids) and executes the sort as a compare-exchange network over the code's own comparison closure (equal ids with hash tie-break are outside the claim); other operations (announcements, mark_as_failed / fetched, remove_entry) and liveness over unbounded histories are outside this revision's claim",
 ]
 M("C16", "c16_mark_as_failed_step", ["BlockchainSyncState::mark_as_failed"], "queues of 1..=3 entries, ids (equal ids allowed) and 32-byte hashes symbolic, every status pattern", covers=3)
 M("C16", "c16_picture_no_duplicates", ["BlockchainSyncState::build_peer_block_picture"], "one peer, fetch queue of 2..=3 entries (thorough 4) in any order without duplicates, one announced (id, hash) possibly equal to any queued entry; the final map clean-ups are cut", covers=1)
 M("C16", "c16_mark_as_fetched_step", ["BlockchainSyncState::mark_as_fetched"], "two peers, each queue holding the fetched hash (any status, either position) and one other entry; the clean-up call is cut", covers=1)
+M("C16", "c16_select_orders_unsorted_queue", ["BlockchainSyncState::get_blocks_to_fetch_per_peer"], "queue of 2..=3 entries (thorough 4) in arbitrary order with pairwise distinct ids, statuses / retry counts symbolic, batch size 1..=3; sort_by executed as a bubble network over the real comparison closure (equal ids, i.e. the hash tie-break, outside this obligation)", covers=2)
 M("C16", "c16_select_step", ["saito_core::core::consensus::blockchain_sync_state::BlockchainSyncState::get_blocks_to_fetch_per_peer"],
   "queues of 1..=3 entries (thorough 4): every status pattern (4^n), ids, retry counters (full u32) and batch size symbolic; ~14 clauses per path", covers=3)
 
